@@ -47,6 +47,11 @@ func (mb *mbox) newMessage() (*Message, error) {
 	}
 	date := time.Now()
 	id := generateID(date)
+	// The ID counter restarts with the process: never hand out an ID that is still in use in
+	// this mailbox, the new message would overwrite the content of the existing one.
+	for mb.hasMessage(id) {
+		id = generateID(date)
+	}
 	return &Message{mailbox: mb, Fid: id, Fdate: date}, nil
 }
 
